@@ -1,0 +1,287 @@
+//go:build verif
+// +build verif
+
+package cli
+
+// Verification hooks (build tag verif). Nothing in this file is compiled into a normal build.
+
+import (
+	"encoding/json"
+	"io"
+	"os"
+	"sync"
+
+	"github.com/jawher/mow.cli/internal/container"
+	"github.com/jawher/mow.cli/internal/fsm"
+	"github.com/jawher/mow.cli/internal/lexer"
+	"github.com/jawher/mow.cli/internal/matcher"
+	"github.com/jawher/mow.cli/internal/values"
+)
+
+// VerifSetStreams replaces the package level output streams and returns a function restoring them
+func VerifSetStreams(out, err io.Writer) (restore func()) {
+	o, e := stdOut, stdErr
+	stdOut, stdErr = out, err
+	return func() { stdOut, stdErr = o, e }
+}
+
+// VerifSetExiter replaces the package level exit function and returns a function restoring it
+func VerifSetExiter(f func(int)) (restore func()) {
+	old := exiter
+	exiter = f
+	return func() { exiter = old }
+}
+
+// VerifToken is a spec token
+type VerifToken struct {
+	Typ string `json:"typ"`
+	Val string `json:"val"`
+	Pos int    `json:"pos"`
+}
+
+// VerifSpecError is a spec error
+type VerifSpecError struct {
+	Msg   string `json:"msg"`
+	Pos   int    `json:"pos"`
+	Input string `json:"input"`
+}
+
+// VerifTokenize runs the spec lexer
+func VerifTokenize(spec string) ([]VerifToken, *VerifSpecError) {
+	toks, err := lexer.Tokenize(spec)
+	if err != nil {
+		pe := err.(*lexer.ParseError)
+		return nil, &VerifSpecError{Msg: pe.Msg, Pos: pe.Pos, Input: pe.Input}
+	}
+	res := make([]VerifToken, 0, len(toks))
+	for _, t := range toks {
+		res = append(res, VerifToken{string(t.Typ), t.Val, t.Pos})
+	}
+	return res, nil
+}
+
+// VerifAsSpecError converts a value recovered from Run into a spec error, if it is one
+func VerifAsSpecError(v interface{}) *VerifSpecError {
+	if pe, ok := v.(*lexer.ParseError); ok {
+		_ = pe.Error() // must not panic
+		return &VerifSpecError{Msg: pe.Msg, Pos: pe.Pos, Input: pe.Input}
+	}
+	return nil
+}
+
+// VerifInit compiles the command's spec (what Run does first)
+func VerifInit(c *Cmd) error { return c.doInit() }
+
+// VerifSub returns the direct sub command answering to name, or nil
+func VerifSub(c *Cmd, name string) *Cmd {
+	for _, sub := range c.commands {
+		if sub.isAlias(name) {
+			return sub
+		}
+	}
+	return nil
+}
+
+// VerifSpecOf returns the (possibly synthesised) spec string of a command
+func VerifSpecOf(c *Cmd) string { return c.Spec }
+
+// VerifLabel describes a matcher
+type VerifLabel struct {
+	Kind  string   `json:"k"`
+	Names []string `json:"names"` // first name of every container the matcher refers to
+}
+
+// VerifTransition is a transition of a compiled automaton
+type VerifTransition struct {
+	L    VerifLabel `json:"l"`
+	Next int        `json:"n"`
+	Prio int        `json:"p"`
+}
+
+// VerifAutomaton is a dump of a compiled automaton, state 0 is the start state
+type VerifAutomaton struct {
+	Term  []bool              `json:"term"`
+	Trans [][]VerifTransition `json:"trans"`
+}
+
+func verifLabel(m matcher.Matcher) VerifLabel {
+	if d, ok := m.(*verifDecorator); ok {
+		m = d.inner
+	}
+	kind, cons := matcher.VerifDescribe(m)
+	l := VerifLabel{Kind: kind, Names: []string{}}
+	for _, c := range cons {
+		l.Names = append(l.Names, verifConName(c))
+	}
+	return l
+}
+
+func verifConName(c *container.Container) string {
+	if len(c.Names) > 0 {
+		return c.Names[0]
+	}
+	return c.Name
+}
+
+func verifStates(root *fsm.State) ([]*fsm.State, map[*fsm.State]int) {
+	ids := map[*fsm.State]int{}
+	var order []*fsm.State
+	var visit func(s *fsm.State)
+	visit = func(s *fsm.State) {
+		if _, ok := ids[s]; ok {
+			return
+		}
+		ids[s] = len(order)
+		order = append(order, s)
+		for _, tr := range s.Transitions {
+			visit(tr.Next)
+		}
+	}
+	visit(root)
+	return order, ids
+}
+
+// VerifDump dumps the compiled automaton of an initialised command
+func VerifDump(c *Cmd) VerifAutomaton {
+	order, ids := verifStates(c.fsm)
+	var d VerifAutomaton
+	for _, s := range order {
+		d.Term = append(d.Term, s.Terminal)
+		ts := []VerifTransition{}
+		for _, tr := range s.Transitions {
+			ts = append(ts, VerifTransition{verifLabel(tr.Matcher), ids[tr.Next], tr.Matcher.Priority()})
+		}
+		d.Trans = append(d.Trans, ts)
+	}
+	return d
+}
+
+// VerifMatchEvent is one call of Matcher.Match made by the backtracking search
+type VerifMatchEvent struct {
+	State int        `json:"s"`  // source state (numbering of VerifDump)
+	Idx   int        `json:"i"`  // index of the transition in the state
+	L     VerifLabel `json:"l"`
+	Args  []string   `json:"args"`
+	RO    bool       `json:"ro"`
+	OK    bool       `json:"ok"`
+	Rem   []string   `json:"rem"`
+	ROOut bool       `json:"ro2"`
+	Opts  [][]string `json:"opts"` // values recorded by this call: [first name, values...]
+	ArgsV [][]string `json:"argv"`
+}
+
+type verifDecorator struct {
+	inner matcher.Matcher
+	state int
+	idx   int
+	sink  func(VerifMatchEvent)
+}
+
+func (d *verifDecorator) Priority() int { return d.inner.Priority() }
+func (d *verifDecorator) String() string {
+	if s, ok := d.inner.(interface{ String() string }); ok {
+		return s.String()
+	}
+	return "?"
+}
+func (d *verifDecorator) Match(args []string, c *matcher.ParseContext) (bool, []string) {
+	ev := VerifMatchEvent{State: d.state, Idx: d.idx, L: verifLabel(d.inner), Args: append([]string{}, args...), RO: c.RejectOptions}
+	ok, rem := d.inner.Match(args, c)
+	ev.OK, ev.Rem, ev.ROOut = ok, append([]string{}, rem...), c.RejectOptions
+	ev.Opts, ev.ArgsV = [][]string{}, [][]string{}
+	for k, vs := range c.Opts {
+		ev.Opts = append(ev.Opts, append([]string{verifConName(k)}, vs...))
+	}
+	for k, vs := range c.Args {
+		ev.ArgsV = append(ev.ArgsV, append([]string{verifConName(k)}, vs...))
+	}
+	d.sink(ev)
+	return ok, rem
+}
+
+// VerifTraceMatchers wraps every matcher of an initialised command's automaton so that each call
+// of Match made by the search is reported to sink. No shortcut is left after Prepare, and nothing
+// depends on matcher identity afterwards.
+func VerifTraceMatchers(c *Cmd, sink func(VerifMatchEvent)) {
+	order, ids := verifStates(c.fsm)
+	for _, s := range order {
+		for i, tr := range s.Transitions {
+			if _, done := tr.Matcher.(*verifDecorator); done {
+				continue
+			}
+			tr.Matcher = &verifDecorator{inner: tr.Matcher, state: ids[s], idx: i, sink: sink}
+		}
+	}
+}
+
+// verifRecord is one event of the harvest trace (VERIF_TRACE=<file>)
+type verifRecord struct {
+	Ev        string      `json:"ev"`
+	Path      []string    `json:"path"`
+	Spec      string      `json:"spec"`
+	Opts      []verifDecl `json:"opts"`
+	Args      []verifDecl `json:"argdecls"`
+	Subs      [][]string  `json:"subs"`
+	Argv      []string    `json:"argv"`
+	NargsLen  int         `json:"nargs"`
+	HelpIndex int         `json:"help"`
+	Err       string      `json:"err,omitempty"`
+}
+
+type verifDecl struct {
+	Names   []string `json:"names"`
+	Bool    bool     `json:"bool"`
+	FromEnv bool     `json:"fromenv"`
+	Multi   bool     `json:"multi"`
+}
+
+var (
+	verifMu   sync.Mutex
+	verifFile *os.File
+	// VerifSink, when set, receives every harvest event instead of the VERIF_TRACE file
+	VerifSink func(line []byte)
+)
+
+func verifDecls(cs []*container.Container) []verifDecl {
+	res := []verifDecl{}
+	for _, c := range cs {
+		names := c.Names
+		if len(names) == 0 {
+			names = []string{c.Name}
+		}
+		_, multi := c.Value.(values.MultiValued)
+		res = append(res, verifDecl{Names: names, Bool: values.IsBool(c.Value), FromEnv: c.ValueSetFromEnv, Multi: multi})
+	}
+	return res
+}
+
+func verifEmit(ev string, c *Cmd, args []string, nargsLen, helpIndex int, err error) {
+	path := os.Getenv("VERIF_TRACE")
+	if VerifSink == nil && path == "" {
+		return
+	}
+	rec := verifRecord{Ev: ev, Path: append(append([]string{}, c.parents...), c.name), Spec: c.Spec,
+		Opts: verifDecls(c.options), Args: verifDecls(c.args), Subs: [][]string{},
+		Argv: append([]string{}, args...), NargsLen: nargsLen, HelpIndex: helpIndex}
+	for _, sub := range c.commands {
+		rec.Subs = append(rec.Subs, sub.aliases)
+	}
+	if err != nil {
+		rec.Err = err.Error()
+	}
+	line, _ := json.Marshal(rec)
+	verifMu.Lock()
+	defer verifMu.Unlock()
+	if VerifSink != nil {
+		VerifSink(line)
+		return
+	}
+	if verifFile == nil {
+		f, e := os.OpenFile(path, os.O_APPEND|os.O_CREATE|os.O_WRONLY, 0644)
+		if e != nil {
+			return
+		}
+		verifFile = f
+	}
+	verifFile.Write(append(line, '\n'))
+}
